@@ -151,7 +151,7 @@ def run(tier, seed):
     ck.assumptions = ["time and memory proportional to the input are observed on the implementation only (the model shows termination "
                       "and where the one explicit length check sits)",
                       "the recursion budget of the model is a fuel parameter; Python's recursion limit is the known finding F6",
-                      "states the public API cannot reach make the model's to_obj decline (Unsupported) instead of mirroring AttributeError"]
+                      "the JSON oracle (json.dumps of a shown map key) raises nothing but what the theorem's premise allows"]
     ck.prepare()
     tmp = tempfile.mkdtemp(prefix="c17-")
     try:
@@ -204,7 +204,7 @@ def observe(ck, stream, data, fails, mres=None, origin=""):
     if mres is not None:
         mm = mres if mres[0] != "ok" else ("ok", mres[1])
         same = (mm[0] == r[0]) and (mm[1] == r[1])
-        if not same and not interp.unmodelled(data) and mm[1] not in ("Unsupported", "RecursionLimit") and r[1] != "RecursionLimit":
+        if not same and not interp.unmodelled(data) and mm[1] != "RecursionLimit" and r[1] != "RecursionLimit":
             if not any(b[1] == "Interp.from_cbor/to_obj (malformed)" for b in ck.broken):
                 ck.broken.append(("corr", "Interp.from_cbor/to_obj (malformed)",
                                   f"input {data.hex()[:300]}: model {str(mm)[:200]} implementation {str(r)[:200]}"))
@@ -309,7 +309,7 @@ def class_stream(ck):
             fails.append({"input": {"class": n, "bytes": d.hex()}, "observed": f"{r[1]} escaped from {n}.from_cbor(...).to_obj()",
                           "expected": "ValueError or SUITError"})
         same = (m[0] == r[0]) and (m[1] == r[1])
-        if not same and not interp.unmodelled(d) and m[1] not in ("Unsupported", "RecursionLimit"):
+        if not same and not interp.unmodelled(d) and m[1] != "RecursionLimit":
             if not any(b[1] == "Interp.from_cbor/to_obj (class level)" for b in ck.broken):
                 ck.broken.append(("corr", "Interp.from_cbor/to_obj (class level)", f"{n} {d.hex()}: model {str(m)[:160]} implementation {str(r)[:160]}"))
     ck.cov["exhaustive_class_stream"] = True
